@@ -9,7 +9,8 @@ Host, the cassandra.protocol message classes used as responses, all exception cl
 
 A scenario is a JSON-able dict (see futb_model.scenario_to_coq for the same data as a Gallina term):
   n        number of hosts (hosts are indices 0..n-1)
-  plan     list of host indices returned by the load balancer
+  plan     list of host indices returned by the load balancer (analytics: {'master': m|None} = DSE graph analytics request,
+           m = host index answered by the master lookup, None = lookup failed)
   target   None | host index  (execute(..., host=...))
   pools    initial pool state per host: 0 missing 1 shutdown 2 NoConnectionsAvailable 3 ConnectionBusy(send_msg)
            4 borrow raises other exception 5 send_msg raises ConnectionShutdown 6 healthy
@@ -19,9 +20,9 @@ A scenario is a JSON-able dict (see futb_model.scenario_to_coq for the same data
   ps       None (SimpleStatement) | [id, qs, ks|None]   (BoundStatement of that prepared statement)
   known    [[id, qs, ks|None], ...]   contents of cluster._prepared_statements
   script   [[decision 0..3, cl|None], ...]  decisions returned by the retry policy, by consultation number
-  ops      ['start'] | ['start', 'spec_in_borrow'] (speculative timer fires inside the first borrow_connection; same model op)
+  ops      ['page', plan] (fetch the next page; plan = the load balancer's plan for that fetch) | ['start'] | ['start', 'spec_in_borrow'] (speculative timer fires inside the first borrow_connection; same model op)
            | ['resp', attempt_index, resp] | ['run', k] | ['spec'] | ['pool', h, st] | ['ks', k|None]
-  resp     [0] rows | [1] void | [2,id] prepared | [3,kind,tag] retryable error | [4,id,tag] unprepared
+  resp     [8] rows with a paging state (more pages) | [0] rows | [1] void | [2,id] prepared | [3,kind,tag] retryable error | [4,id,tag] unprepared
            | [5,tag] other ErrorMessage | [6,tag] other exception | [7] junk
   kind     0 read timeout 1 write timeout 2 unavailable 3 overloaded 4 bootstrapping 5 truncate 6 server error
            7 ConnectionException 8 ConnectionShutdown
@@ -50,6 +51,27 @@ KIND_NAMES = ['read_timeout', 'write_timeout', 'unavailable', 'overloaded', 'boo
               'conn_exception', 'conn_shutdown']
 POOL_NAMES = ['missing', 'shutdown', 'no_connections', 'busy', 'borrow_fails', 'send_fails', 'healthy']
 DECISION_NAMES = ['RETRY', 'RETHROW', 'IGNORE', 'RETRY_NEXT_HOST']
+
+
+def effective_plan(sc):
+    """the plan the request must follow: the explicit target, or the load balancer's plan; for a DSE graph analytics request
+    whose master lookup succeeded (sc['analytics'] = {'master': m}) the analytics master first, then the policy's plan"""
+    if sc.get('target') is not None:
+        return [sc['target']]
+    a = sc.get('analytics')
+    if a and a.get('master') is not None:
+        return [a['master']] + [h for h in sc['plan'] if h != a['master']]
+    return list(sc['plan'])
+
+
+def page_plan(sc, p):
+    """the load balancer's plan for a later page fetch, p being the child policy's plan: for an analytics request whose master
+    is known, DefaultLoadBalancingPolicy keeps putting the master first (HostTargetingStatement shares the statement's __dict__,
+    so the statement itself carries target_host from then on)"""
+    a = sc.get('analytics')
+    if sc.get('target') is None and a and a.get('master') is not None:
+        return [a['master']] + [h for h in p if h != a['master']]
+    return list(p)
 
 
 class Timer(object):
@@ -92,15 +114,26 @@ def qsname(q):
 
 
 class FakeConnection(object):
+    """stream ids are handed out like cassandra.connection.Connection.get_request_id: a deque popped from the left (so a
+    fresh connection gives 0 first), ids of answered requests are appended at the right (FIFO recycling), highest+1 when empty"""
     def __init__(self, env, hidx):
         self.env, self.hidx = env, hidx
         self.lock = Lock()
         self._requests = {}
-        self.request_ids = collections.deque()     # _query hands the stream id back here when send_msg raises ConnectionBusy
+        n = env.sc.get('nids', 4)
+        self.request_ids = collections.deque(range(n))
+        self.highest_request_id = n - 1
         self.orphaned_request_ids = set()
         self.orphaned_threshold = 10 ** 9
         self.is_defunct = False
         self.is_closed = False
+
+    def get_request_id(self):
+        try:
+            return self.request_ids.popleft()
+        except IndexError:
+            self.highest_request_id += 1
+            return self.highest_request_id
 
     @property
     def keyspace(self):
@@ -113,7 +146,7 @@ class FakeConnection(object):
             raise d['C'].ConnectionBusy('Connection is overloaded')
         if st == PSENDFAIL:
             raise d['C'].ConnectionShutdown('send-fail')
-        rec = {'host': self.hidx, 'cb': cb, 'msg': msg}
+        rec = {'host': self.hidx, 'cb': cb, 'msg': msg, 'conn': self, 'rid': request_id}
         if isinstance(msg, d['P'].PrepareMessage):
             rec.update(kind=1, qs=msg.query, ks=msg.keyspace)
         else:
@@ -130,7 +163,11 @@ class FakeConnection(object):
 class FakePool(object):
     def __init__(self, env, hidx):
         self.env, self.hidx = env, hidx
-        self.next_id = 0
+        self.conn = FakeConnection(env, hidx)
+
+    def reconnect(self):
+        """the pool replaced its connection (fresh stream ids)"""
+        self.conn = FakeConnection(self.env, self.hidx)
 
     @property
     def is_shutdown(self):
@@ -152,11 +189,30 @@ class FakePool(object):
             raise d['PO'].NoConnectionsAvailable()
         if st == PFAIL:
             raise RuntimeError('borrow-fail')
-        self.next_id += 1
-        return FakeConnection(self.env, self.hidx), self.next_id
+        with self.conn.lock:
+            return self.conn, self.conn.get_request_id()
 
     def return_connection(self, conn, stream_was_orphaned=False):
         self.env.returns += 1
+
+
+class FakeMetrics(object):
+    """what ResponseFuture uses of cassandra.metrics.Metrics (Cluster(metrics_enabled=True)); greplin.scales is not installed"""
+    class _Timer(object):
+        def __init__(self):
+            self.values = 0
+
+        def addValue(self, v):
+            self.values += 1
+
+    def __init__(self):
+        self.request_timer = self._Timer()
+        self.counts = collections.Counter()
+
+    def __getattr__(self, name):
+        if name.startswith('on_'):
+            return lambda *a, **k: self.counts.update([name])
+        raise AttributeError(name)
 
 
 class PoolTable(object):
@@ -238,6 +294,7 @@ def make_session_class():
 
     class FakeSession(object):
         _create_response_future = Session._create_response_future
+        _on_analytics_master_result = Session._on_analytics_master_result
         _maybe_get_execution_profile = Session._maybe_get_execution_profile
         default_fetch_size = 5000
         use_client_timestamp = False
@@ -250,6 +307,8 @@ def make_session_class():
             self._protocol_version = sc['pv']
             self._pools = PoolTable(env, hosts)
             self.row_factory = lambda names, rows: ('rows', rows)
+            if sc.get('metrics'):
+                self._metrics = FakeMetrics()
 
         @property
         def keyspace(self):
@@ -372,6 +431,10 @@ def make_response(env, r):
         m = P.ResultMessage(P.RESULT_KIND_ROWS)
         m.column_names, m.column_types, m.parsed_rows, m.paging_state = ['a'], [None], [(1,)], None
         return m
+    if k == 8:
+        m = P.ResultMessage(P.RESULT_KIND_ROWS)
+        m.column_names, m.column_types, m.parsed_rows, m.paging_state = ['a'], [None], [(1,)], b'more'
+        return m
     if k == 1:
         return P.ResultMessage(P.RESULT_KIND_VOID)
     if k == 2:
@@ -444,7 +507,23 @@ class Run(object):
         self.policy = RecordingPolicy(env, sc['script'])
         has_pol, max_att = sc['spec']
         spec_pol = d['POL'].ConstantSpeculativeExecutionPolicy(0.05, max_att) if has_pol else None
-        profile = d['cluster'].ExecutionProfile(load_balancing_policy=FakeLB(env, self.hosts, sc['plan']),
+        lb = self.lb = FakeLB(env, self.hosts, sc['plan'])
+        if sc.get('analytics'):
+            # DSE graph with an analytics source: Session.execute_graph_async re-plans through DefaultLoadBalancingPolicy
+            # (real class) once the analytics master is known; the scripted plan is its child policy's plan
+            for h in self.hosts:
+                h.set_up()
+            hosts = self.hosts
+
+            class _Meta(object):
+                def get_host(self, addr, port=None):
+                    for h in hosts:
+                        if h.endpoint.address == addr:
+                            return h
+                    return None
+            lb = d['POL'].DefaultLoadBalancingPolicy(lb)
+            lb._cluster_metadata = _Meta()
+        profile = d['cluster'].ExecutionProfile(load_balancing_policy=lb,
                                                 retry_policy=self.policy, consistency_level=sc['cl'],
                                                 request_timeout=None, speculative_execution_policy=spec_pol,
                                                 row_factory=lambda names, rows: ('rows', rows))
@@ -457,7 +536,7 @@ class Run(object):
         if sc['ps'] is not None:
             # 'pidem': is_idempotent of the PreparedStatement at execution time (may differ from the BoundStatement's,
             # which is the statement actually executed: flag set after binding, or overridden on the bound statement)
-            bound = query.bind(())
+            bound = query.bind((1,) if sc.get('markers') else ())
             if sc.get('pidem') is not None:
                 query.is_idempotent = bool(sc['pidem'])
             bound.is_idempotent = bool(sc['idem'])
@@ -472,8 +551,14 @@ class Run(object):
         self.n_log = 0
 
     def _ps(self, i, q, k):
+        """as Session.prepare does from the PREPARED response: PreparedStatement.from_message (statement keyspace = the keyspace
+        given to prepare()); sc['markers']: the statement has one bind marker (the other branch of from_message)"""
         d = drv()
-        return d['Q'].PreparedStatement([], idbytes(i), None, qsname(q), ksname(k), self.sc['pv'], [], None)
+        bind_meta, pk = [], None
+        if self.sc.get('markers'):
+            from cassandra.cqltypes import Int32Type
+            bind_meta, pk = [d['P'].ColumnMetadata('ksx', 't', 'c', Int32Type)], [0]
+        return d['Q'].PreparedStatement.from_message(idbytes(i), bind_meta, pk, None, qsname(q), ksname(k), self.sc['pv'], [], None)
 
     # ------------------------------------------------------------------ enabledness (mirrors the model)
     def open_attempts(self):
@@ -493,13 +578,32 @@ class Run(object):
         k = op[0]
         if k == 'start':
             env.fire_in_borrow = len(op) > 1 and op[1] == 'spec_in_borrow'
-            f.send_request()
+            if self.sc.get('analytics'):
+                # Session._target_analytics_master's callback (real code) with the scripted answer of the master lookup, then the
+                # send_request it hands to the executor
+                m = self.sc['analytics'].get('master')
+
+                class _MasterFuture(object):
+                    def result(self):
+                        if m is None:
+                            raise RuntimeError('analytics master lookup failed')
+                        return [({'location': '10.0.0.%d:8182' % (m + 1)},)]
+                n0 = len(env.queue)
+                self.session._on_analytics_master_result(None, _MasterFuture(), f)
+                fn, args, kwargs = env.queue.pop(n0)
+                fn(*args, **kwargs)
+            else:
+                f.send_request()
             env.fire_in_borrow = False
         elif k == 'resp':
             i = op[1]
             if i < len(env.sent) and not env.sent[i].get('answered'):
                 env.sent[i]['answered'] = True
-                env.sent[i]['cb'](make_response(env, op[2]))
+                rec = env.sent[i]
+                rec['conn']._requests.pop(rec['rid'], None)
+                rec['cb'](make_response(env, op[2]))
+                with rec['conn'].lock:                      # process_msg: the stream id becomes reusable (FIFO)
+                    rec['conn'].request_ids.append(rec['rid'])
         elif k == 'run':
             if op[1] < len(env.queue):
                 fn, args, kwargs = env.queue.pop(op[1])
@@ -512,8 +616,17 @@ class Run(object):
                     break
         elif k == 'pool':
             env.pool_state[op[1]] = op[2]
+            if op[2] == PHEALTHY:
+                self.session._pools.pools[self.hosts[op[1]]].reconnect()    # a replaced connection: stream ids start at 0 again
         elif k == 'ks':
             env.keyspace = op[1]
+        elif k == 'page':
+            # ResultSet.fetch_next_page -> ResponseFuture.start_fetching_next_page; op[1] = the load balancer's plan for this fetch
+            self.lb.plan = list(op[1])
+            try:
+                f.start_fetching_next_page()
+            except drv()['cluster'].QueryExhausted:
+                pass
         else:
             raise ValueError(op)
         return self.observe()
@@ -524,7 +637,7 @@ class Run(object):
         P = d['P']
         if isinstance(r, P.ResultMessage):
             if r.kind == P.RESULT_KIND_ROWS:
-                return [0]
+                return [8] if r.paging_state else [0]
             if r.kind == P.RESULT_KIND_VOID:
                 return [1]
             if r.kind == P.RESULT_KIND_PREPARED:
@@ -569,7 +682,8 @@ class Run(object):
         return {'errors': [[self.hosts.index(h)] + classify_err(env, v) for h, v in f._errors.items()],
                 'retries': f._query_retries, 'cl': getattr(f.message, 'consistency_level', None),
                 'queue': [self.canon_task(t) for t in env.queue], 'res': res,
-                'exc': classify_exc(env, self.hosts, f._final_exception), 'spec': 1 if self.spec_armed() else 0}
+                'exc': classify_exc(env, self.hosts, f._final_exception), 'spec': 1 if self.spec_armed() else 0,
+                'paging': 1 if f._paging_state else 0}
 
     def observe(self):
         env = self.env
@@ -595,6 +709,7 @@ def enc_obs(ev, st):
     out += enc_opt(st['res'])
     out += [0] if st['exc'] is None else [1] + st['exc']
     out.append(st['spec'])
+    out.append(st['paging'])
     return out
 
 
